@@ -40,7 +40,7 @@ CORE = ["initialize", "ping", "tools/list", "tools/call", "resources/list", "res
 RANDOM_METHODS = ["", " ", "nope", "other/only", "tools/call/extra", "rpc.internal", "TOOLS/LIST", "ünï/codé", "notifications/", "a" * 200, "tools\ncall", "tools/\ud83d", "\udc00"]
 IDS = [0, 1, -5, 2 ** 53 + 1, 10 ** 30, "", "abc", "0", "id with space", "ü", "x" * 100]
 BEHAV = ["ok_str", "ok_dict", "ok_list", "ok_none", "raise_value", "raise_key", "raise_runtime", "raise_type", "nonsense_obj", "nonsense_set",
-         "nonsense_badstr", "sleep_ok", "sleep_raise", "raise_empty", "raise_assert", "raise_notimpl", "raise_unprintable", "raise_surrogate"]
+         "nonsense_badstr", "sleep_ok", "sleep_raise", "raise_empty", "raise_assert", "raise_notimpl", "raise_unprintable", "raise_surrogate", "raise_code_int", "raise_code_str", "raise_code_none"]
 
 
 def _params_for(method, rng):
@@ -178,6 +178,12 @@ def execute(scn: dict) -> dict:
             if kind == "raise_unprintable":
                 st["handler_faults"] += 1
                 raise _Unprintable()
+            if kind in ("raise_code_int", "raise_code_str", "raise_code_none"):
+                # exceptions of other libraries that happen to have a `code` attribute (urllib's HTTPError: int, API clients: str or None)
+                st["handler_faults"] += 1
+                exc_ = OSError("upstream said no")
+                exc_.code = {"raise_code_int": 404, "raise_code_str": "rate_limit_exceeded", "raise_code_none": None}[kind]
+                raise exc_
             if kind == "raise_surrogate":
                 st["handler_faults"] += 1
                 raise RuntimeError("cannot open '\udcff\ud83d.txt'")  # text with lone surrogates (os.fsdecode of a bad file name)
@@ -217,6 +223,8 @@ def execute(scn: dict) -> dict:
 
         async def custom_raises(message, session_id):
             st["handler_faults"] += 1
+            if cur.get("behav", "").startswith("raise_code"):
+                await behave(cur["behav"], 1)
             raise RuntimeError("custom handler failed")
 
         async def custom_slow(message, session_id):
